@@ -49,6 +49,9 @@ REF_PROGS = {
     "reloc-imp14": "\tcpu 8051\n\textern_sym a\n\textern_sym abcd\n\tmov a,#1\n\tljmp a\n\tmov dptr,#abcd\n\tljmp abcd\n",
     "reloc-imp25": "\tcpu 68000\n\textern_sym ab\n\textern_sym abcde\n\tdc.l ab\n\tdc.w 1\n\tdc.l abcde\n",
     "big": "\tcpu z80\n\torg 0\n\tdb 300 dup (0aah)\n\tdb 300 dup (055h)\n",
+    # data up to the very top of the 32-bit address space, and straddling 64 KiB / 1 MiB boundaries of the hex formats
+    "hi32": "\tcpu 68020\n\torg $fffffff8\n\tdc.b 1,2,3,4,5,6,7,8\n\torg $ffff\n\tdc.b 9,10\n\torg $fffff\n\tdc.b 11,12\n",
+    "hi16": "\tcpu z80\n\torg 0fff8h\n\tdb 1,2,3,4,5,6,7,8\n\tend 0ffffh\n",
 }
 BIG64K = "\tcpu 68000\n\torg 0\n\tpadding off\n" + "\tdc.b [16384]1,2,3,4\n" + "\tdc.b 5\n"
 
@@ -203,7 +206,7 @@ T_TOOLOPTS = {
 }
 
 
-PAIR_REFS = ["c30", "68k", "pic", "8051", "synth-grans", "56k", "reloc"]
+PAIR_REFS = ["c30", "68k", "pic", "8051", "synth-grans", "56k", "reloc", "hi32", "hi16"]
 
 
 def tool_pairs(prog):
@@ -237,8 +240,8 @@ def gen_toolopt(rng, refs):
         if vals is not None:
             argv.append(rng.choice(vals))
     files = ["f.p"]
-    if prog in ("pbind", "alink") and rng.chance(0.4):
-        files.append("g.p")
+    if prog in ("pbind", "alink", "p2bin", "p2hex") and rng.chance(0.4):
+        files.append(rng.choice(["g.p", "g.p", "f.p", "*.p", "nothere.p"]))
     if prog != "plist":
         files.append(rng.choice(["out", "out.x", "f.p"]) if rng.chance(0.15) else "out.p" if prog in ("pbind", "alink") else "out.o")
     pos = rng.below(3)
